@@ -335,8 +335,10 @@ def gov_tlc(work, tier):
     reqs = vlib.tlc_prints(r["out"], "REQ")
     lay = vlib.tlc_prints(r["out"], "LAYOUT")
     con = vlib.tlc_prints(r["out"], "CONSTS")
-    if not reqs or len(lay) != 1 or len(con) != 1:
+    batches = vlib.tlc_prints(r["out"], "BATCH")
+    if not reqs or not batches or len(lay) != 1 or len(con) != 1:
         raise vlib.Broken("MC_Governance did not export its enumeration / layout table")
+    r["batches"] = batches
     return reqs, lay[0], con[0], r
 
 
@@ -477,6 +479,67 @@ class GovGen:
         return {"req": q, "cfg": cfg, "style": {"upper": r.random() < 0.3}, "src": "seeded"}
 
 
+    def valid(self, kind=None):
+        """A request the node's own policy accepts (well-formed, in range), with tails of varied length."""
+        r = self.r
+        kind = kind or r.choice(GOV_KINDS)
+        q = {"kind": kind}
+        if kind in ("contract_upgrade", "bridge_contract_upgrade"):
+            q["payload"] = _ok(self.hexbytes(r.choice([0, 1, 2, 8, 35, 100, 300])))
+        if kind in ("bridge_register_chain", "bridge_contract_upgrade"):
+            q["module"] = _ok("546f6b656e427269646765")
+        if kind == "guardian_set":
+            n = r.choice([1, 2, 3, 7, 13, 19])
+            q["guardians"] = [_ok("%040x" % (r.getrandbits(150) * 32 + i)) for i in range(n)]
+        elif kind == "update_message_fee":
+            q["fee"] = _ok(self.hexbytes(32))
+        elif kind == "transfer_fee":
+            q["amount"], q["recipient"] = _ok(self.hexbytes(32)), _ok(self.hexbytes(32))
+        elif kind == "bridge_register_chain":
+            q.update(chain="%08x" % r.randrange(65536), emitter=_ok(self.hexbytes(32)))
+        elif kind == "destroy_sequences":
+            n = r.choice([0, 1, 1, 2, 3, 4, 8, 20, 60])
+            q.update(echain="%08x" % r.randrange(65536), seqs={"n": n, "pat": "explicit", "xs": ["%016x" % r.getrandbits(64) for _ in range(n)]})
+        elif kind == "update_min_cl":
+            q["cl"] = "%08x" % r.randrange(256)
+        elif kind == "update_refund_address":
+            q["refund"] = _ok(self.hexbytes(r.choice([0, 1, 33, 33, 64, 200])))
+        q.update(tchain="%08x" % r.randrange(65536), seq="%016x" % r.getrandbits(64), nonce="%08x" % r.getrandbits(32))
+        return q
+
+    def batch(self):
+        """One request with 2..4 messages: same kind (second payload shorter / equal / longer than the first),
+        different kinds, and occasionally a message the node must or may refuse."""
+        r = self.r
+        n = r.choice([2, 2, 2, 3, 3, 4])
+        y = r.random()
+        if y < 0.5:
+            k = r.choice(["destroy_sequences", "destroy_sequences", "contract_upgrade", "bridge_contract_upgrade", "guardian_set",
+                          "update_refund_address", "transfer_fee", "update_min_cl", "bridge_register_chain", "update_message_fee"])
+            kinds = [k] * n
+        elif y < 0.8:
+            kinds = [r.choice(GOV_KINDS) for _ in range(n)]
+        else:
+            a, b = r.sample(GOV_KINDS, 2)
+            kinds = [a, b, a, b][:n]
+        reqs = [self.valid(k) for k in kinds]
+        if r.random() < 0.25:
+            reqs[r.randrange(1, n)] = json.loads(json.dumps(reqs[0]))     # the very same message twice
+        if r.random() < 0.08:
+            bad = self.request()["req"]
+            reqs[r.randrange(n)] = bad
+        ts, gsi = "%08x" % r.getrandbits(32), "%08x" % r.randrange(2 ** 32 - 1)
+        for q in reqs:
+            q["ts"], q["gsi"] = ts, gsi
+        cfg = dict(DEFAULT_CFG) if r.random() < 0.3 else {"gchain": "%04x" % r.randrange(65536), "gaddr": self.hexbytes(32)}
+        return {"reqs": reqs, "cfg": cfg, "style": {"upper": r.random() < 0.3}, "src": "seeded-batch"}
+
+
+def gov_seeded_batches(seed_, n):
+    g = GovGen(random.Random("gov-batch-%d" % seed_))
+    return [g.batch() for _ in range(n)]
+
+
 def gov_seeded(seed_, n):
     g = GovGen(random.Random("gov-%d" % seed_))
     return [g.request() for _ in range(n)]
@@ -508,16 +571,33 @@ def gov_expand(x):
 
 
 def gov_replay(work, cases):
+    """cases: {"req": ..} (one message) or {"reqs": [..]} (one request carrying several messages; one trace line per
+    message).  Returns (lines, wall, tmap) with tmap[trace id] = (case, index of the message in the case)."""
     inp = os.path.join(work, "gov_requests.ndjson")
     trp = os.path.join(work, "gov_trace.ndjson")
+    tmap = {}
+    tid = 1
     with open(inp, "w") as fh:
-        for i, c in enumerate(cases):
-            fh.write(json.dumps({"id": i + 1, "cfg": c.get("cfg", DEFAULT_CFG), "req": c["req"], "style": c.get("style", {"upper": False})}) + "\n")
+        for c in cases:
+            e = {"id": tid, "cfg": c.get("cfg", DEFAULT_CFG), "style": c.get("style", {"upper": False})}
+            if "reqs" in c:
+                e["reqs"] = c["reqs"]
+                for i in range(len(c["reqs"])):
+                    tmap[tid + i] = (c, i)
+                tid += len(c["reqs"])
+            else:
+                e["req"] = c["req"]
+                tmap[tid] = (c, 0)
+                tid += 1
+            fh.write(json.dumps(e) + "\n")
     rc, out, wall = vlib.go_test(work, "node", PKG, "TestVerifGovernanceReplay", INJECT,
                                  env={"VERIF_GOV_REQUESTS": inp, "VERIF_TRACE": trp, "VERIF_SEED": vlib.seed()}, timeout=1500)
     if "VERIF-REPLAYED" not in out:
         raise vlib.Broken("governance harness did not complete (rc=%d):\n%s" % (rc, out[-4000:]))
-    return vlib.read_ndjson(trp), wall
+    lines = vlib.read_ndjson(trp)
+    if sorted(ln["t"] for ln in lines) != sorted(tmap):
+        raise vlib.Broken("governance harness did not log exactly one line per message")
+    return lines, wall, tmap
 
 
 def gov_validate(work, lines):
@@ -539,7 +619,17 @@ def gov_signatures(rej, line):
     unfit = sorted(rej.get("unfit", []))
     sigs = []
     calls = line.get("s", {}).get("calls", [])
+    multi = line.get("a", {}).get("batch", {}).get("size", 1) > 1
+    # where the deviation shows: in a request carrying several messages, and/or only when a result is read again
+    # after later constructions (the first reading was still right)
+    first = [c for c in calls if not c.get("via", "").endswith("-later") and c.get("class") == "vaa"]
+    later = [c for c in calls if c.get("via", "").endswith("-later") and c.get("class") == "vaa"]
+    later_only = (not multi) and len(first) == len(later) and any(a.get("vaa") != b.get("vaa") for a, b in zip(first, later))
+    where = "/multi-message" if multi else ""
     for tag in sorted(tags):
+        if tag in ("payload", "digest", "header", "impure"):
+            sigs.append("%s/%s%s" % (kind, tag, where or ("/after-later-construction" if later_only else "")))
+            continue
         if tag == "panic":
             msgs = sorted({re.sub(r"[^A-Za-z0-9]+", "-", (c.get("panic") or "").splitlines()[0] if c.get("panic") else "")[:50].strip("-")
                            for c in calls if c.get("class") == "panic"})
